@@ -33,7 +33,7 @@ RAW_RX = {
 }
 
 
-QUICK_BUDGET = {"cases": 960, "deadline_s": 170, "case_timeout_s": 120, "floors": {"submissions": 1434, "start_events_checked": 825, "never_started_checked": 120, "local_enqueues": 300, "pool_spawns": 165}}
+QUICK_BUDGET = {"cases": 960, "deadline_s": 170, "case_timeout_s": 120, "floors": {"submissions": 1434, "start_events_checked": 825, "never_started_checked": 120, "local_enqueues": 300, "pool_spawns": 165, "purged_prerequisites": 5}}
 THOROUGH_FACTOR = 12  # thorough = the same workload with 12x the cases (floors scale along)
 
 
@@ -148,12 +148,22 @@ def run_case(case):
         expected = {}  # job id -> list of prerequisite job ids (from the oracle, at submission time)
         earlier = False
         npre = []
+        purged_name = None
         for ri, rnd in enumerate(case["rounds"]):
             try:
                 with open(os.path.join(proj.root, ".gwf", scenario.tracked_file(sched))) as f:
                     tracked = json.load(f)
             except FileNotFoundError:
                 tracked = {}
+            if ri >= 1 and sched == "slurm" and purged_name is None and case["final_seed"] % 4 == 0:
+                # a running prerequisite from an earlier invocation has failed and was purged from the controller, while
+                # the lagging accounting database still reports it as running: sbatch will refuse a dependency on it
+                jobs_ = sim.jobs()
+                live = sorted(n_ for n_, jid_ in tracked.items() if jid_ in jobs_ and jobs_[jid_]["phase"] == "running" and any(n_ in deps[m_] for m_ in deps))
+                if live:
+                    purged_name = live[0]
+                    sim.update_job(tracked[purged_name], phase="finished", exit=1, purged=True, acct={"phase": "running", "exit": None, "code": None}, end_seq=sim.seq())
+                    res.mon("purged_prerequisites")
             tracked = scenario.check_tracked(res, sim, sched, tracked, set(deps), {"round": ri, "sched": sched})
             bview = scenario.backend_view(sim, tracked, sched)
             mtime = scenario.disk_mtimes(scenario.all_paths(mts))
@@ -163,6 +173,17 @@ def run_case(case):
             seq0 = sim.seq()
             r = cli.gwf(proj.root, ["run"] + rnd["patterns"], env)
             ctx = {"round": ri, "sched": sched, "patterns": rnd["patterns"], "backend": bview}
+            if r.rc != 0 and purged_name is not None and "Job dependency problem" in r.err:
+                # the scheduler refused a job whose prerequisite it does not know any more: fine, as long as nothing was
+                # accepted WITHOUT the prerequisites it has to wait for
+                for s_ in scenario.submissions_view(sim, seq0):
+                    want_ids = {str(tracked.get(d)) for d in want_prereq.get(s_["name"], ()) if tracked.get(d) is not None}
+                    if purged_name in want_prereq.get(s_["name"], ()) or not want_ids <= set(s_["prereq_ids"]):
+                        res.violation("prereq-mismatch", "after sbatch refused a dependency on the purged job of %s, %s was accepted with prerequisites %s (it has to wait for %s)" % (purged_name, s_["name"], s_["prereq_ids"], sorted(want_prereq.get(s_["name"], ()))), **ctx)
+                res.mon("refused_dependency_runs")
+                res.sig = (sched, "purged")
+                res.nontrivial = True
+                return res
             if r.rc != 0:
                 res.violation("crash", "gwf run failed", **cli.crash_witness(r), **ctx)
                 return res
